@@ -101,6 +101,7 @@ def eval_instance(tier, seed=0):
     # a whole space goes away: its values (inputs too), the values computed from its cells,
     # and the values that reached its references / model-level references through it
     ops.append({"op": "del_space", "p": ["T"]})
+    ops.append({"op": "rename_space", "p": ["T"], "nm": "X"})
     return {"inits": inits, "ops": ops, "curated": len(curated)}
 
 
